@@ -36,7 +36,7 @@ Val(i) == Term("id", <<i>>)
 NumOutcomes(i) == IF Wide THEN ErrOutcomes \cup {Absent} \cup {Some(t, Val(i)) : t \in Ranks}
                   ELSE {Err(1), Absent, Some(i, Val(i))}
 BoolOutcomes == ErrOutcomes \cup {Absent} \cup {Some(t, b) : t \in {1, 2}, b \in BOOLEAN}
-ClockOutcomes == {Err(1)} \cup {[c |-> "time", t |-> t] : t \in {0, 1, 2, 3}}
+ClockOutcomes == {Err(1)} \cup {[c |-> "time", t |-> t] : t \in {1, 2, 3, 4}}
 
 NAry == {"SumN", "ProductN", "Latest"}
 Binary == {"Sum2", "Product2", "Difference", "Quotient", "Exponent"}
